@@ -558,9 +558,13 @@ def run_registry_case(case):
                     rec["res"] = [log.get(id(o), -1) for o in q.evaluate()]
                 elif op == "query":
                     cls = world.CLASSES[ev["T"]]
-                    v = let(cls)
-                    with symbolic_mode():
-                        q = an(entity(v))
+                    if ev.get("style") == "an":        # the shorthand: an(T) builds variable and descriptor itself
+                        with symbolic_mode():
+                            q = an(cls)
+                    else:
+                        v = let(cls, name="v") if ev.get("style") == "named" else let(cls)
+                        with symbolic_mode():
+                            q = an(entity(v))
                     rec["res"] = [log.get(id(o), -1) for o in q.evaluate()]
             except Exception as e:
                 rec["exc"] = exc_name(e) + ":" + str(e)[:80]
